@@ -486,6 +486,23 @@ def e2e_worker(case):
             out["equal_with_phase_off"] = not compare(calls["hg19"](False), calls["hg38"](False))
         pairs, only_one = transport_pairs(genes["hg19"], genes["hg38"])
         inj, sp = py_hypotheses(pairs)
+        # observed fact about the vendored realigner (aldy/indelpost, DESIGN.md 8.4): its reference count for an indel changes when the
+        # variant lies 0..48 bases after a power of ten of the genome coordinate (same reads, same padded reference, only the offset
+        # differs: 14 vs 10 reference reads).  Recorded per build so that the finding is matched by this fact and nothing else
+        def near_pow10(g):
+            return any(
+                -2 <= pos - 10 ** k <= 52 for (pos, op) in {(m.pos, m.op) for a in g.alleles.values() for mi in a.minors.values()
+                                                            for m in list(a.func_muts) + list(mi.neutral_muts)}
+                if op.startswith("ins") or op.startswith("del") for k in range(2, 10))
+        out["indel_after_power_of_ten"] = [near_pow10(genes["hg19"]), near_pow10(genes["hg38"])]
+        # do two different variants of the planted alleles share a genome site in one build only?  (an insertion or a multi-base deletion
+        # is anchored at the other end of its footprint on the minus strand, so it can land on the site of a neighbouring substitution)
+        def merged(build):
+            n = len(desc["refseq"])
+            vs = sorted({(v[0], v[1]) for al in alleles for v in desc["alleles"][al]["variants"]})
+            site = {v: gendb._to_genome(desc["builds"][build], n, v[0], v[1])[0] for v in vs}
+            return sorted([list(a), list(b)] for i, a in enumerate(vs) for b in vs[i + 1:] if site[a] == site[b])
+        out["planted_site_merge_differs"] = merged("hg19") != merged("hg38")
         out.update(res=res, inj=inj, sp=sp, only_one=only_one, term=coq_hypotheses_term(pairs) if len(pairs) <= 200 else None,
                    same_site=same_site_sub_and_del(genes["hg19"]), planted_same_site=bool(case.get("plant_same_site")))
         return out
@@ -547,7 +564,8 @@ def generated_stream(chk, n, timeout_s):
             txt = diffs[cl] + (f"  [also: {', '.join(x for x in order if x in diffs and x != cl)}]" if len(diffs) > 1 else "")
             chk.fail(cl, {"db": "generated", "strands": strands, "phase": bool(c.get("phase", True)), "indelpost": bool(c.get("indelpost", True)),
                           "planted_has_insertion": r["planted_has_insertion"], "planted_has_deletion": r["planted_has_deletion"],
-                          "planted_same_site_sub_and_del": r["planted_same_site"], "equal_with_phase_off": r.get("equal_with_phase_off"), "site_preserving": r["sp"], "same_site_sub_and_del": r["same_site"],
+                          "planted_same_site_sub_and_del": r["planted_same_site"], "planted_site_merge_differs": r["planted_site_merge_differs"],
+                          "indel_after_power_of_ten_in_one_build": r["indel_after_power_of_ten"][0] != r["indel_after_power_of_ten"][1], "equal_with_phase_off": r.get("equal_with_phase_off"), "site_preserving": r["sp"], "same_site_sub_and_del": r["same_site"],
                           "friendly": c["friendly"], "evidence": c.get("evidence"), "difference": classify(ra, rb, diffs)},
                      dict(c, alleles=r["alleles"]), "equal in both builds", txt)
     return hyp_terms, hyp_py, hyp_ids
